@@ -80,7 +80,7 @@ rm -f "$DST"/check_quick.log "$DST"/check_thorough.log
 if git -C /repo diff --quiet && git -C /repo apply --check "$DST/patch.diff" 2>/dev/null; then
   git -C /repo apply "$DST/patch.diff"
   (cd /verif && ./check "$PROP" quick > "$DST/check_quick.log" 2>&1)
-  if grep -q "^VIOLATION property=$PROP" "$DST/check_quick.log"; then caught=quick; else
+  if grep -q "^VIOLATION property=$PROP" "$DST/check_quick.log"; then caught=quick; elif [ -n "${QUICK_ONLY:-}" ]; then caught="no (quick only; thorough not run)"; else
     (cd /verif && timeout 2400 ./check "$PROP" thorough > "$DST/check_thorough.log" 2>&1)
     if grep -q "^VIOLATION property=$PROP" "$DST/check_thorough.log"; then caught=thorough; fi
   fi
